@@ -228,8 +228,8 @@ def oracle(line, out):
     dup_conts = len(set(cnames)) != len(cnames)
     if must_reject:
         return out == "err"
-    if dup_conts:
-        return None           # identical duplicates: outside the claim; conflicting ones are decided by the model
+    if dup_conts and not out.startswith("ok "):
+        return None           # whether duplicates conflict is decided by the model; a load that succeeds must still be consistent
     if out == "err identity":
         return False
     if not out.startswith("ok "):
